@@ -793,14 +793,21 @@ def subst(t, args):
     return tuple(subst(x, args) if isinstance(x, tuple) else x for x in t)
 
 
-_SUMMARY = {}
+def _summary_cache(facts):
+    # the cache lives on the facts object: an id()-keyed module dict would hand a later fact set (a mutant's) the summaries
+    # of a collected earlier one whose id was reused
+    c = getattr(facts, "_summary_memo", None)
+    if c is None:
+        c = facts._summary_memo = {}
+    return c
 # helpers larger than this are not inlined (a rule that needs to see through one big dispatcher raises them locally)
 LIMITS = {"blocks": 80, "size": 500}
 
 
 def summary(facts, callee, depth, stack=(), stops=()):
     """return-value term of a workspace fn in terms of its parameters (cached), or None"""
-    key = (id(facts), callee, depth, LIMITS["blocks"], LIMITS["size"], tuple(stops))
+    _SUMMARY = _summary_cache(facts)
+    key = (callee, depth, LIMITS["blocks"], LIMITS["size"], tuple(stops))
     if key in _SUMMARY:
         return _SUMMARY[key]
     cb = facts.bodies.get(callee)
@@ -817,7 +824,8 @@ def summary(facts, callee, depth, stack=(), stops=()):
 
 def closure_summary(facts, callee, depth, stack=(), stops=()):
     """return-value term of a closure body: parameter 0 is the environment (captures as tuple fields), 1.. the arguments"""
-    key = (id(facts), callee, depth, "closure", LIMITS["blocks"], LIMITS["size"], tuple(stops))
+    _SUMMARY = _summary_cache(facts)
+    key = (callee, depth, "closure", LIMITS["blocks"], LIMITS["size"], tuple(stops))
     if key in _SUMMARY:
         return _SUMMARY[key]
     cb = facts.bodies.get(callee)
